@@ -174,6 +174,8 @@ fn process_z80r_block<H: Host>(emulator: &mut Emulator<H>, block_data: &[u8]) {
 // Process ZXSTSPECREGS (SPCR) block
 fn process_spcr_block<H: Host>(emulator: &mut Emulator<H>, machine_id: u32, block_data: &[u8]) {
     // ch7ffd
+    // Paging lock of the previous machine state must not block state restore
+    emulator.controller.unlock_paging();
     if machine_id < ZXST_MID_128K {
         emulator.controller.write_7ffd(0); // Always 0 for 16k and 48k
     } else {
